@@ -107,3 +107,30 @@ def const_value(e: ast.AST):
     if isinstance(e, ast.UnaryOp) and isinstance(e.op, ast.USub) and isinstance(e.operand, ast.Constant):
         return -e.operand.value
     return None
+
+
+def cumulative_vectors(fn: FuncInfo):
+    """locals defined as np.hstack([0, np.cumsum(X)]) -> {name: norm(X)}"""
+    out = {}
+    for n in walk_no_nested(fn.node):
+        if isinstance(n, ast.Assign) and len(n.targets) == 1 and isinstance(n.targets[0], ast.Name) and isinstance(n.value, ast.Call) \
+                and norm(n.value.func) in ('np.hstack', 'np.concatenate', 'np.r_') and n.value.args \
+                and isinstance(n.value.args[0], (ast.List, ast.Tuple)) and len(n.value.args[0].elts) == 2:
+            z, c = n.value.args[0].elts
+            if isinstance(z, ast.Constant) and z.value == 0 and isinstance(c, ast.Call) and norm(c.func) == 'np.cumsum' and c.args:
+                out[n.targets[0].id] = norm(c.args[0])
+    return out
+
+
+def cumulative_slices(fn: FuncInfo, cums):
+    """(slice_node, cum_name, index_src, ok) for every slice whose bounds index a cumulative vector."""
+    for n in ast.walk(fn.node):
+        if not isinstance(n, ast.Slice) or n.lower is None or n.upper is None:
+            continue
+        lo, up = n.lower, n.upper
+        if isinstance(lo, ast.Subscript) and isinstance(lo.value, ast.Name) and lo.value.id in cums:
+            cname = lo.value.id
+            i = norm(lo.slice)
+            ok = isinstance(up, ast.Subscript) and isinstance(up.value, ast.Name) and up.value.id == cname \
+                and norm(up.slice).replace(' ', '') in (i + '+1', '1+' + i)
+            yield n, cname, i, ok
